@@ -146,8 +146,24 @@ def platform_facts():
             elif dt != np.float64:
                 raise RuntimeError(f'{nm}: slope dtype {dt}')
         caps.append(dict(name=nm, slope=s, inter=i, direct=False, f32=f32))
-    src = inspect.getsource(MGHImage._write_data)
-    if hasattr(MGHHeader, 'has_data_slope') or 'array_to_file(data, mghfile, out_dtype, offset)' not in src:
+    # MGH writes through array_to_file directly (no writer, no scale factors): established by
+    # behaviour, not by source text (harmless refactors change the text): out-of-range floats are
+    # rounded and clipped without an error
+    def _mgh_direct():
+        import io as _io
+        from nibabel.fileholders import FileHolder as _FH
+        hd = MGHHeader()
+        hd.set_data_dtype(np.int16)
+        im = MGHImage(np.array([[[1e6, -1e6, 0.4]]], dtype=np.float64), np.eye(4), header=hd)
+        fm = {'image': _FH(fileobj=_io.BytesIO())}
+        try:
+            im.to_file_map(fm)
+            fm['image'].fileobj.seek(0)
+            back = np.asarray(MGHImage.from_file_map(fm).dataobj).ravel().tolist()
+        except Exception:
+            return False
+        return back == [32767, -32768, 0]
+    if hasattr(MGHHeader, 'has_data_slope') or not _mgh_direct():
         raise RuntimeError('MGH write path changed')
     caps.append(dict(name='mgh', slope=False, inter=False, direct=True, f32=False))
     facts['caps'] = caps
@@ -1078,10 +1094,13 @@ UNPROVED = [
     'C02_setter_rounding (float32 setter: relative error 2^-24, absolute 2^-150 when subnormal), plus '
     'C02_no_wrap_float(_platform/_inputs) and C02_reload_is_rounding. Missing exactly: (1) the float32 and longdouble '
     'working formats and the float32 reload of SPM99; (2) the intercept branch with its ulp terms turned into an '
-    'explicit allowance; (3) the lift from one element to writer_write/apply_read_scaling on whole arrays (choice of '
-    'the working format, identification of q_mn/q_mx, no-overflow guards for all elements, 64-bit integer elements '
-    '>= 2^53); (4) how far extreme elements overshoot the clip range given the 2^-24 relative error of the stored '
-    'slope/intercept (unbounded for a subnormal slope); (5) comparison of the proved allowances with the harness '
+    'explicit allowance; (3) the whole-array lift is proved for float64 arrays on the SPM path (C02_array_lift, '
+    'C02_array_gap_slope_only: working format = binary64, clip bounds = post_bounds_f, value-preserving cast) - not for '
+    'the NIfTI path with intercept 0, not for 32/64-bit integer arrays, and the guard |x/s| <= 2^52 is a hypothesis on '
+    '(array, stored slope), not yet derived from the data through the slope formula; (4) how far extreme elements '
+    'overshoot the clip range: C02_setter_rounding gives the 2^-24 relative error of the stored slope/intercept for '
+    'ideal magnitudes >= 2^-126 (not yet turned into a bound on the overshoot), C02_subnormal_slope_refuted shows the '
+    'failure below 2^-126 (finding S-C02c); (5) comparison of the proved allowances with the harness '
     'allowance outside the slope-only regime. Measured on every case by the direct predicate; the float layer is '
     'tied to the implementation bit for bit',
     'NumPy rint / clip / astype / int->float conversions are modelled (Flocq Bnearbyint, Bcompare, binary_normalize) '
